@@ -102,7 +102,7 @@ class Judge:
             self.res.fail(prop + '-' + code, detail)
 
     # ---------------------------------------------------------------- links (C01)
-    def validate_level(self, b, path=()):
+    def validate_level(self, b, path=(), outer=None):
         """Links of the entries of one circuit, by identity with the objects returned by add."""
         prog, ent = b.prog, b.ent
         depth = {}
@@ -114,7 +114,7 @@ class Judge:
             fps.append(fp)
             link = obj.relation_link
             ref = link.reference_node
-            rel = e[3] if e[0] == 'op' else None
+            rel = e[3] if e[0] == 'op' else (e[4] if len(e) > 4 else None)
             if rel is not None:
                 j = rel[1]
                 if ref is not ent[j] or link.relation_type != RT[rel[0]]:
@@ -124,7 +124,13 @@ class Judge:
             else:
                 cands = [j for j in range(i) if chan_match(fps[j], fp)]
                 if not cands:
-                    if ref is not None:
+                    if outer is not None and outer.reference_node is not None:
+                        # the entry belongs to a block that is part of the circuit itself (inserted with its own relation):
+                        # once listed, its first operations carry the block's relation
+                        if ref is not None and (ref is not outer.reference_node or link.relation_type != outer.relation_type):
+                            self.fail('C01', 'block-root', 'entry %s of %r must start with its block (relation %r), reports %r' % (path + (i,), prog, outer, link))
+                            ok = False
+                    elif ref is not None:
                         self.fail('C01', 'implicit-root', 'entry %s of %r shares no channel with earlier entries but follows %r' % (path + (i,), prog, link))
                         ok = False
                     pred = None
@@ -166,12 +172,17 @@ class Judge:
             return False
         return True
 
-    def validate_tree(self, b, path=()):
-        ok = self.validate_level(b, path)
+    def validate_tree(self, b, path=(), outer=None):
+        ok = self.validate_level(b, path, outer)
         for i, sb in enumerate(b.subs):
             if sb is not None:
-                ok &= self.validate_tree(sb, path + (i,))          # the block as given
-                ok &= self.validate_copy(b.ent[i], sb, path + (i,))  # the block as added
+                e = b.prog[i]
+                if len(e) > 4 and e[4] is not None:
+                    # inserted with add_operation: the block given *is* the block in the circuit
+                    ok &= self.validate_tree(sb, path + (i,), outer=b.ent[i].relation_link)
+                else:
+                    ok &= self.validate_tree(sb, path + (i,))          # the block as given
+                    ok &= self.validate_copy(b.ent[i], sb, path + (i,))  # the block as added
         return ok
 
     # ---------------------------------------------------------------- times (C01)
